@@ -1024,6 +1024,15 @@ def list_program(rng, max_points=1 << 12, dyn_fe=False):
             st.append(["uvec", [["l"], ["m"]]])
         elif second is not None:
             st.append(["fe", ["m"], "both", [["e", ["b", r.choice(["<=", "!="]), ["it"], ["el", ["l"], ["idx"]]]]]])
+    if kind == "fixed" and L["sz"] >= 1 and r.random() < 0.25:
+        # a non-random list used as a per-element mask: the condition inside the foreach names mk[i]
+        mk = {"n": "mk", "k": "list", "ek": "int", "w": 1, "s": False, "r": False, "rsz": False,
+              "init": [r.randint(0, 1) for _ in range(L["sz"])]}
+        fields.append(mk)
+        prog["classes"]["T"]["fields"] = fields
+        inner = ["e", ["b", r.choice(["<", "<=", "!=", ">", "=="]), ["it"], lit()]]
+        els = [["e", ["b", r.choice(["!=", ">="]), ["it"], lit()]]] if r.random() < 0.5 else None
+        st.append(["fe", ["l"], "both", [["if", [[["b", "==", ["el", ["mk"], ["idx"]], ["c", r.randint(0, 1)]], [inner]]], els]]])
     if kind == "fixed" and L["sz"] >= 2 and not esg and r.random() < 0.3:
         # single elements named by a literal index, related to each other and to a scalar in separate statements
         # (each statement may join two groups of related variables through the subscript)
